@@ -22,7 +22,7 @@
   `shiftForward_spec`, `moveTo_spec`, …); with the old variants they are false (D5/D6).
 -/
 import RbModel.Gen.Morx
-import RbModel.Gen.Buf
+import RbModel.Buf
 
 namespace RbModel.Morx
 open RbModel.Gen.Morx
@@ -105,147 +105,73 @@ def outSet (b : Buf) (i : Nat) (g : G) : M Buf :=
   if b.sepOut then do let o ← wr b.out i g; pure { b with out := o }
   else do let o ← wr b.info i g; pure { b with info := o }
 
-/-- src: buffer.rs::ensure. `Gen.Buf.ensureGrowOnly` = which variant the source has (recovered from the
-    compiled crate): `true` = the vectors only grow (the repaired code; then the list view of the buffer is
-    kept, cf. Lemmas/BufZipper.lean `ensure_spec`), `false` = `Vec::resize`, which also shrinks and could cut
-    the separate out-buffer below `out_len` (defect D6). -/
-def ensure (b : Buf) (size : Nat) : Buf × Bool :=
-  if size < b.len then (b, true)
-  else if size > b.maxLen then ({ b with successful := false }, false)
-  else if RbModel.Gen.Buf.ensureGrowOnly then
-    ({ b with info := if size > b.info.size then resize b.info size else b.info,
-              out := if size > b.out.size then resize b.out size else b.out }, true)
-  else ({ b with info := resize b.info size, out := resize b.out size }, true)
+/-! ### the in/out primitives: delegated to the shared buffer model (RbModel/Buf.lean)
 
-/-- src: buffer.rs::make_room_for -/
-def makeRoomFor (b : Buf) (numIn numOut : Nat) : M (Buf × Bool) := do
-  let (b, ok) := ensure b (b.outLen + numOut)
-  if !ok then return (b, false)
-  if !b.sepOut && b.outLen + numOut > b.idx + numIn then
-    if !b.haveOutput then throw .assert
-    let b := { b with sepOut := true }
-    let b ← forUp b.outLen (fun i b => do let g ← rd b.info i; outSet b i g) b
-    return (b, true)
-  return (b, true)
+The primitives that work on the out-buffer (`move_to`, `next_glyph(s)`, `copy_glyph`, `output_glyph`,
+`replace_glyph`, `sync`, and below them `ensure` / `make_room_for` / `shift_forward`) are *the* definitions
+of RbModel/Buf.lean — one model of buffer.rs for all cores, following the crate through the generated
+variants of Gen/Buf.lean (`ensureGrowOnly`, `moveToRewindReversed`, `extendStartGuard`). Here they are run
+on the embedding `toS` of this file's lighter record (glyph id + cluster) and read back with `ofS`.
+LIST-ASSUMPTION: that these primitives act on the logical sequence `out[0..out_len) ++ info[idx..len)` like
+list operations is proved there for the repaired variants (Lemmas/BufZipper.lean: `moveTo_spec`,
+`nextGlyph_spec`, `replaceGlyph_spec`, `outputGlyph_spec`, `copyGlyph_spec`, `sync_spec`) and carried over
+to this record in Lemmas/Morx.lean (`*_zipper`); with the old variants (D5/D6) it is false. -/
 
-/-- src: buffer.rs::shift_forward — returns `false` when `ensure` refuses (repaired D19; before, the
-    caller ran into `assert!(self.idx >= count)`). List view: BufZipper `shiftForward_spec`. -/
-def shiftForward (b : Buf) (count : Nat) : M (Buf × Bool) := do
-  if !b.haveOutput then throw .assert
-  let (b, ok) := ensure b (b.len + count)
-  if !ok then return (b, false)
-  if b.idx > b.len then throw .wrap
-  let info ← forDown (b.len - b.idx)
-    (fun i a => do let g ← rd a (b.idx + i); wr a (b.idx + count + i) g) b.info
-  let info ← if b.idx + count > b.len then
-      forUp (b.idx + count - b.len) (fun j a => wr a (b.len + j) G.dflt) info
-    else pure info
-  return ({ b with info := info, len := b.len + count, idx := b.idx + count }, true)
+def toInfo (g : G) : RbModel.Info := { gid := g.gid, cluster := g.cl }
+def ofInfo (x : RbModel.Info) : G := ⟨x.gid, x.cluster⟩
 
-/-- the rewind loop of move_to, `info[idx + j] = out_info()[out_len + j]`, in the order the source runs it:
-    `Gen.Buf.moveToRewindReversed` = j descending (repaired, memmove-safe); ascending duplicates glyphs when
-    source and destination overlap in the same vector (defect D5). -/
-def rewindCopy (b : Buf) (count : Nat) : M Buf :=
-  let step := fun (j : Nat) (b : Buf) => do
-    let g ← outGet b (b.outLen + j); let a ← wr b.info (b.idx + j) g
-    pure { b with info := a }
-  if RbModel.Gen.Buf.moveToRewindReversed then forDown count step b else forUp count step b
+/-- this file's buffer as a buffer of the shared model (masks and payload words zero) -/
+def toS (b : Buf) : RbModel.Buf :=
+  { info := b.info.toList.map toInfo, out := b.out.toList.map toInfo, idx := b.idx, len := b.len,
+    outLen := b.outLen, haveOutput := b.haveOutput, sepOut := b.sepOut, successful := b.successful,
+    level := b.level, maxLen := b.maxLen, maxOps := b.maxOps }
 
-/-- src: buffer.rs::move_to. List view (logical sequence unchanged, `out_len = i`): BufZipper `moveTo_spec`,
-    which needs both repaired variants. -/
-def moveTo (b : Buf) (i : Nat) : M (Buf × Bool) := do
-  if !b.haveOutput then
-    if i > b.len then throw .assert
-    return ({ b with idx := i }, true)
-  if !b.successful then return (b, false)
-  if b.idx > b.len then throw .wrap
-  if i > b.outLen + (b.len - b.idx) then throw .assert
-  if b.outLen < i then
-    let count := i - b.outLen
-    let (b, ok) ← makeRoomFor b count count
-    if !ok then return (b, false)
-    let b ← forUp count (fun j b => do let g ← rd b.info (b.idx + j); outSet b (b.outLen + j) g) b
-    return ({ b with idx := b.idx + count, outLen := b.outLen + count }, true)
-  else if b.outLen > i then
-    let count := b.outLen - i
-    let (b, ok) ← if b.idx < count then shiftForward b (count - b.idx) else pure (b, true)
-    if !ok then return (b, false)
-    if b.idx < count then throw .assert
-    let b := { b with idx := b.idx - count, outLen := b.outLen - count }
-    let b ← rewindCopy b count
-    return (b, true)
-  else return (b, true)
+/-- read a shared-model buffer back (direction, which the shared model does not carry, from `b0`) -/
+def ofS (b0 : Buf) (s : RbModel.Buf) : Buf :=
+  { b0 with info := (s.info.map ofInfo).toArray, out := (s.out.map ofInfo).toArray, idx := s.idx, len := s.len,
+            outLen := s.outLen, haveOutput := s.haveOutput, sepOut := s.sepOut, successful := s.successful,
+            maxLen := s.maxLen, maxOps := s.maxOps }
+
+def liftS {α : Type} : RbModel.M α → M α
+  | .ok a => .ok a
+  | .error .oob => .error .oob
+  | .error .assert => .error .assert
+
+/-- src: buffer.rs::move_to (shared model: `RbModel.Buf.moveTo`) -/
+def moveTo (b : Buf) (i : Nat) : M (Buf × Bool) :=
+  match liftS ((toS b).moveTo i) with
+  | .ok (s, r) => .ok (ofS b s, r)
+  | .error p => .error p
+
+def viaS (b : Buf) (f : RbModel.Buf → RbModel.M RbModel.Buf) : M Buf :=
+  match liftS (f (toS b)) with
+  | .ok s => .ok (ofS b s)
+  | .error p => .error p
 
 /-- src: buffer.rs::next_glyph -/
-def nextGlyph (b : Buf) : M Buf := do
-  if b.haveOutput then
-    if b.sepOut || b.outLen != b.idx then
-      let (b, ok) ← makeRoomFor b 1 1
-      if !ok then return b
-      let g ← rd b.info b.idx
-      let b ← outSet b b.outLen g
-      return { b with outLen := b.outLen + 1, idx := b.idx + 1 }
-    return { b with outLen := b.outLen + 1, idx := b.idx + 1 }
-  return { b with idx := b.idx + 1 }
+def nextGlyph (b : Buf) : M Buf := viaS b RbModel.Buf.nextGlyph
 
 /-- src: buffer.rs::next_glyphs -/
-def nextGlyphs (b : Buf) (n : Nat) : M Buf := do
-  if b.haveOutput then
-    if b.sepOut || b.outLen != b.idx then
-      let (b, ok) ← makeRoomFor b n n
-      if !ok then return b
-      let b ← forUp n (fun i b => do let g ← rd b.info (b.idx + i); outSet b (b.outLen + i) g) b
-      return { b with outLen := b.outLen + n, idx := b.idx + n }
-    return { b with outLen := b.outLen + n, idx := b.idx + n }
-  return { b with idx := b.idx + n }
+def nextGlyphs (b : Buf) (n : Nat) : M Buf := viaS b (fun s => s.nextGlyphs n)
 
 /-- src: buffer.rs::copy_glyph -/
-def copyGlyph (b : Buf) : M Buf := do
-  let (b, ok) ← makeRoomFor b 0 1
-  if !ok then return b
-  let g ← rd b.info b.idx
-  let b ← outSet b b.outLen g
-  return { b with outLen := b.outLen + 1 }
+def copyGlyph (b : Buf) : M Buf := viaS b RbModel.Buf.copyGlyph
 
 /-- src: buffer.rs::skip_glyph -/
 def skipGlyph (b : Buf) : Buf := { b with idx := b.idx + 1 }
 
 /-- src: buffer.rs::output_glyph -/
-def outputGlyph (b : Buf) (gid : Nat) : M Buf := do
-  let (b, ok) ← makeRoomFor b 0 1
-  if !ok then return b
-  if b.idx == b.len && b.outLen == 0 then return b
-  let g ← if b.idx < b.len then rd b.info b.idx else outGet b (b.outLen - 1)
-  let b ← outSet b b.outLen { g with gid := gid }
-  return { b with outLen := b.outLen + 1 }
+def outputGlyph (b : Buf) (gid : Nat) : M Buf := viaS b (fun s => s.outputGlyph gid)
 
 /-- src: buffer.rs::replace_glyph -/
-def replaceGlyph (b : Buf) (gid : Nat) : M Buf := do
-  if b.sepOut || b.outLen != b.idx then
-    let (b, ok) ← makeRoomFor b 1 1
-    if !ok then return b
-    let g ← rd b.info b.idx
-    let b ← outSet b b.outLen g
-    let g ← outGet b b.outLen
-    let b ← outSet b b.outLen { g with gid := gid }
-    return { b with idx := b.idx + 1, outLen := b.outLen + 1 }
-  let g ← outGet b b.outLen
-  let b ← outSet b b.outLen { g with gid := gid }
-  return { b with idx := b.idx + 1, outLen := b.outLen + 1 }
+def replaceGlyph (b : Buf) (gid : Nat) : M Buf := viaS b (fun s => s.replaceGlyph gid)
 
 /-- src: buffer.rs::clear_output -/
 def clearOutput (b : Buf) : Buf :=
   { b with haveOutput := true, idx := 0, outLen := 0, sepOut := false }
 
 /-- src: buffer.rs::sync -/
-def sync (b : Buf) : M Buf := do
-  if !b.haveOutput then throw .assert
-  if b.idx > b.len then throw .assert
-  if !b.successful then
-    return { b with haveOutput := false, outLen := 0, idx := 0 }
-  let b ← nextGlyphs b (b.len - b.idx)
-  let b := if b.sepOut then { b with info := b.out, out := b.info, sepOut := false } else b
-  return { b with len := b.outLen, haveOutput := false, outLen := 0, idx := 0 }
+def sync (b : Buf) : M Buf := viaS b (fun s => do let r ← s.sync; pure r.1)
 
 /-- src: buffer.rs::reverse / reverse_range(0, len) (positions do not exist yet at this stage). -/
 def reverse (b : Buf) : M Buf := do
